@@ -30,13 +30,13 @@ namespace W2c2Verif.Props.C03
 open W2c2Verif Model Gen Spec Sim
 
 /-- Simulation for instruction sequences (bodies of functions and blocks). -/
-theorem compile_sim_partial (ns : NumSem) (hns : NumOK ns) (ctx : Ctx)
+theorem compile_sim_partial (ns : NumSem) (hns : NumOK ns) (ctx : Ctx) (hco : CallOK ns ctx)
     (body : List EInstr) (st st' : St) (out : List MStmtC) (dead : Bool)
     (stk loc : List Val) (σ : MSt) (fuel : Nat)
     (hc : compileSeq ctx st body = .ok (st', out, dead))
     (hw : WF st) (hr : Rel st.stack stk σ) (hl : σ.locals = loc) (hlt : LocTyped ctx loc) :
     SimRes ctx st stk σ st' dead (erunSeq ns fuel body stk loc) (execSeq ns fuel out σ) :=
-  (sim_all ns hns ctx fuel).1 body st st' out dead stk loc σ hc hw hr hl hlt
+  (sim_all ns hns ctx hco fuel).1 body st st' out dead stk loc σ hc hw hr hl hlt
 
 /-- the static side: translation never touches the type stack below the innermost open label,
     restores the label stack, and keeps the translator state well formed — for ALL instructions -/
@@ -55,12 +55,13 @@ theorem compile_static (ctx : Ctx) (body : List EInstr) (st st' : St) (out : Lis
     statement exists whenever a value is returned. -/
 theorem func_sim_partial (ns : NumSem) (hns : NumOK ns) (ctx : Ctx) (params locals : List VT) (result : Option VT)
     (body : List EInstr) (cf : Model.CFunc) (args : List Val) (fuel : Nat)
+    (hco : CallOK ns { ctx with localTypes := params ++ locals })
     (hc : compileFunc ctx params locals result body = .ok cf) (hargs : args.map vtOf = params) :
     match runFuncSrc ns fuel locals result body args with
     | .value v => runFuncTgt ns fuel cf args = .value v
     | .trap t => runFuncTgt ns fuel cf args = .trap t
     | _ => True :=
-  func_sim ns hns ctx params locals result body cf args fuel hc hargs
+  func_sim ns hns ctx params locals result body cf args fuel hco hc hargs
 
 /-! ### the hypotheses are satisfiable, the conclusion is not trivial -/
 
@@ -75,6 +76,10 @@ def trapNS : NumSem where
 theorem trapNS_ok : NumOK trapNS := by
   refine ⟨fun opcode k h => by simp [trapNS, h], fun opcode k args v h hs => by simp [trapNS] at hs⟩
 
+/-- in a module without functions to call, the call hypotheses hold trivially -/
+theorem trapNS_calls (lt : List VT) : CallOK trapNS { localTypes := lt } := by
+  refine ⟨?_, ?_, ?_, ?_, ?_, ?_, ?_, ?_⟩ <;> intros <;> simp_all [trapNS]
+
 /-- `(func (param i32) (result i32) (local i32)
        (block (result i32) i32.const 5 (block local.get 0 i32.const 7 br 2) drop i32.const 9) local.set 1 local.get 1)`
     — a value-carrying branch out of two levels to the function label, with two operands below the carried value -/
@@ -86,6 +91,6 @@ example : runFuncSrc trapNS 20 [.i32] (some .i32) demoBody [.i32 3] = .value (so
 /-- ... hence, by the theorem, the emitted C returns 7 as well -/
 example (cf : Model.CFunc) (hc : compileFunc {} [.i32] [.i32] (some .i32) demoBody = .ok cf) :
     runFuncTgt trapNS 20 cf [.i32 3] = .value (some (.i32 7)) :=
-  func_sim_partial trapNS trapNS_ok {} [.i32] [.i32] (some .i32) demoBody cf [.i32 3] 20 hc rfl
+  func_sim_partial trapNS trapNS_ok {} [.i32] [.i32] (some .i32) demoBody cf [.i32 3] 20 (trapNS_calls _) hc rfl
 
 end W2c2Verif.Props.C03
